@@ -86,7 +86,26 @@ class CorruptFamily(Family):
         u = Unit()
         bi, sl = divmod(index, self.SLICES)
         bseed = sub_seed(getattr(self, "check_seed", 0), "c15base", bi)
-        b = base_scenario(bseed, bi * 5, "asyncio")  # company "alone" for every ctype
+        b = base_scenario(bseed, bi * 5, "asyncio")
+        if bi % 2 == 1 and b["ctype"] in ("h2tls", "h2pk", "tun_h2", "socks_auth_h2"):
+            # two or three multiplexed streams with multi-frame bodies, so that one stream
+            # is in the middle of its body when another stream's read meets the corruption
+            from .common import _shrink_plan
+
+            rr = gen.mk_rng(bseed, "c15shared")
+            b = base_scenario(bseed, 22 + CTYPES.index(b["ctype"]), "asyncio")
+            for c in b["callers"]:
+                for op in c["ops"]:
+                    _shrink_plan(op["resp"], rr.choice([1500, 3000]))
+                    if op["resp"].get("framing") != "none":
+                        op["resp"]["h2_frame"] = rr.choice([100, 300, 1000])
+                    op["resp"].pop("think", None)
+                    op["consume"] = "all"
+                c["start"] = 0.0
+            for cfg in b["net"]["endpoints"].values():
+                if "h2" in cfg:
+                    cfg["h2"]["settings"]["max_concurrent_streams"] = 100
+                    cfg["h2"]["interleave"] = "random"
         b["epilogue"] = ["close_pool"]
         for c in b["callers"]:
             for op in c["ops"]:
@@ -342,12 +361,13 @@ register("C15", {
             "requests from the caller; oracle = class of every exception reaching the caller "
             "(request call, body reads, close) is a documented httpcore exception, coarse cause "
             "match, termination; all runs but the dry runs are non-trivial",
-    "assumptions": ["the L2 families run the real AnyIOBackend (through AutoBackend) and "
-                    "SyncBackend above fakes of anyio's byte streams / TLSStream.wrap and of "
-                    "socket / SSLSocket, so their exception maps are exercised with the native "
-                    "exceptions (OSError subclasses, socket.timeout, ssl.SSLError, anyio's "
-                    "Broken/Closed resource errors, EndOfStream, TimeoutError); TrioBackend and "
-                    "TLSinTLSStream are not exercised"],
+    "assumptions": ["the L2 families run the real AnyIOBackend and TrioBackend (through "
+                    "AutoBackend) and SyncBackend above fakes of anyio's byte streams / "
+                    "TLSStream.wrap, of trio's SocketStream / SSLStream and of socket / SSLSocket, "
+                    "so their exception maps are exercised with the native exceptions (OSError "
+                    "subclasses, socket.timeout, ssl.SSLError, anyio's and trio's Broken/Closed "
+                    "resource errors, EndOfStream, TimeoutError, TooSlowError); the sync "
+                    "TLSinTLSStream is not exercised"],
 }, [CorruptFamily(44, 440), ScratchFamily("C15", "scratch-async", 3000, 60000),
     FaultFamily("backend-faults-async", "asyncio", 55, 550),
     FaultFamily("backend-faults-threads", "threads", 22, 220),
